@@ -191,6 +191,12 @@ def case_B(c):
         mp = F.write(mrel, lang.render(main) + ("# \u00e9\n" if nparams else ""))
         cwd = {"scriptdir": os.path.dirname(mp), "parent": os.path.dirname(os.path.dirname(mp)), "root": "/", "unrelated": os.path.join(F.root, "unrelated")}[cwdsel]
         os.makedirs(cwd, exist_ok=True)
+        # another program under the same relative name, seen from where the process happens to be working
+        for inc_ in incs:
+            if not os.path.isabs(inc_):
+                decoy = os.path.normpath(os.path.join(cwd, inc_))
+                if decoy != os.path.normpath(os.path.join(os.path.dirname(mp), inc_)) and decoy.startswith(F.root + os.sep) and not os.path.exists(decoy):
+                    F.write(os.path.relpath(decoy, F.root), "name Sub\nversion 1.0\n\nDecoy | 8\nDecoy | 1\n")
         os.chdir(cwd)
         arg = mp if argstyle == "abs" else os.path.relpath(mp, cwd)
         r = judge(main, lib, arg)
